@@ -271,15 +271,35 @@ Proof.
   - intros [H1 H2]. split; [intros d Hd; now apply c9m_ldef_reflect, H1|intros r Hr; now apply c9m_lref_reflect, H2].
 Qed.
 
+(* declarations all of which have the shape are good *)
+Theorem c9l_decls_good L pfx ho (l : list (str * parsed)) b pd' (ds : list decl) :
+  oracle_ok ho -> c9m_ids_wf l = true -> In (b, pd') (multi_crates ho l) ->
+  (forall d, In d ds -> c9l_decl_ok L pfx pd' d) ->
+  good_C09_multi L pfx l b (c9m_observe_decls L ds) = true.
+Proof.
+  intros Hho Hwf Hin Hall. apply good_C09_multi_reflect. unfold c9m_observe_decls. cbn [c9_defs c9_refs]. split.
+  - intros n Hn. apply in_map_iff in Hn as (d & <- & Hd). apply filter_In in Hd as [Hd Hdef].
+    exact (proj1 (c9l_decl_judged L pfx ho l Hho Hwf b pd' Hin d (Hall d Hd)) Hdef).
+  - intros r Hr. apply in_flat_map in Hr as (d & Hd & Hr).
+    exact (proj2 (c9l_decl_judged L pfx ho l Hho Hwf b pd' Hin d (Hall d Hd)) r Hr).
+Qed.
+
+Lemma c9l_observe_decls L fd : c09_observe L fd = c9m_observe_decls L (fd_decls fd).
+Proof. reflexivity. Qed.
+
 (* a file all of whose declarations have the shape is good *)
 Theorem c9l_file_good L pfx ho (l : list (str * parsed)) b pd' (fd : file_decls) :
   oracle_ok ho -> c9m_ids_wf l = true -> In (b, pd') (multi_crates ho l) ->
   (forall d, In d (fd_decls fd) -> c9l_decl_ok L pfx pd' d) ->
   good_C09_multi L pfx l b (c09_observe L fd) = true.
+Proof. intros Hho Hwf Hin Hall. rewrite c9l_observe_decls. now apply (c9l_decls_good L pfx ho l b pd'). Qed.
+
+(* the same for a list of groups of declarations *)
+Lemma c9l_forall_judged L pfx ho (l : list (str * parsed)) b pd' (ds : list decl) :
+  oracle_ok ho -> c9m_ids_wf l = true -> In (b, pd') (multi_crates ho l) ->
+  (forall d, In d ds -> c9l_decl_ok L pfx pd' d) ->
+  Forall (fun d => (c09_is_def d = true -> c9m_ldef_ok L l b pfx (d_name d)) /\
+                   (forall r, In r (c09_decl_refs L d) -> c9m_lref_ok L l b pfx r)) ds.
 Proof.
-  intros Hho Hwf Hin Hall. apply good_C09_multi_reflect. unfold c09_observe. cbn [c9_defs c9_refs]. split.
-  - intros n Hn. apply in_map_iff in Hn as (d & <- & Hd). apply filter_In in Hd as [Hd Hdef].
-    exact (proj1 (c9l_decl_judged L pfx ho l Hho Hwf b pd' Hin d (Hall d Hd)) Hdef).
-  - intros r Hr. apply in_flat_map in Hr as (d & Hd & Hr).
-    exact (proj2 (c9l_decl_judged L pfx ho l Hho Hwf b pd' Hin d (Hall d Hd)) r Hr).
+  intros Hho Hwf Hin Hall. apply Forall_forall. intros d Hd. exact (c9l_decl_judged L pfx ho l Hho Hwf b pd' Hin d (Hall d Hd)).
 Qed.
